@@ -112,7 +112,7 @@ func ruleOrder(c *Ctx) *RuleResult {
 	r := &RuleResult{Doc: "order hypothesis: for every weak ordering of the keys of a 1..3 element array, max_by/min_by return the first extremal element, max/min an extremal element, and the sort adapters' Less(i,j) is exactly key(items[i]) < key(items[j])", Floor: 6}
 	fn := c.A.CallFunction
 	byName := map[string]*TableEntry{}
-	for _, e := range c.A.Table {
+	for _, e := range c.table() {
 		byName[e.Key] = e
 	}
 	kinds := []struct {
@@ -134,6 +134,7 @@ func ruleOrder(c *Ctx) *RuleResult {
 			key := fmt.Sprintf("order|%s|%s", name, kd.name)
 			var bad []string
 			runs, undec := 0, 0
+			gapped := false
 			for n := 1; n <= maxN; n++ {
 				for _, ranks := range weakOrders(n) {
 					runs++
@@ -170,10 +171,13 @@ func ruleOrder(c *Ctx) *RuleResult {
 					}
 					if x.trunc || len(x.gaps) > 0 {
 						undec++
+						gapped = true
 					}
 				}
 			}
 			switch {
+			case gapped:
+				r.undecided(key, e.Pos, e.Handler.Name(), "the handler uses a construct the abstract interpreter has no transfer function for: not decided")
 			case len(bad) > 0:
 				if len(bad) > 4 {
 					bad = append(bad[:4], fmt.Sprintf("… %d more", len(bad)-4))
@@ -197,6 +201,7 @@ func ruleOrder(c *Ctx) *RuleResult {
 			key := fmt.Sprintf("order|%s|%s", name, kd.name)
 			var bad []string
 			runs, undec := 0, 0
+			gapped := false
 			for n := 1; n <= maxN; n++ {
 				for _, ranks := range weakOrders(n) {
 					runs++
@@ -235,9 +240,14 @@ func ruleOrder(c *Ctx) *RuleResult {
 					if nsucc == 0 || x.trunc || len(x.gaps) > 0 {
 						undec++
 					}
+					if x.trunc || len(x.gaps) > 0 {
+						gapped = true
+					}
 				}
 			}
 			switch {
+			case gapped:
+				r.undecided(key, e.Pos, e.Handler.Name(), "the handler uses a construct the abstract interpreter has no transfer function for: not decided")
 			case len(bad) > 0:
 				if len(bad) > 4 {
 					bad = append(bad[:4], fmt.Sprintf("… %d more", len(bad)-4))
